@@ -1,6 +1,6 @@
 (* C15 — property theorems (proofs in C15/Proofs.v) *)
 From Coq Require Import ZArith QArith List Bool Permutation.
-From PPV Require Import Base.QN C14.Model C15.Model C15.Proofs.
+From PPV Require Import Base.QN C14.Model C15.Model C15.Proofs C15.Chunk C15.ChunkProofs.
 Import ListNotations.
 
 (* Whatever the number of workers and their completion order, Pool.map hands back the packs in task
@@ -33,3 +33,91 @@ Theorem C15_cause_order_dependent_on_ties_refuted :
   exists l l', Permutation l l' /\ cause (run_col l acc0) <> cause (run_col l' acc0).
 Proof. exact cause_order_dependent_on_ties. Qed.
 Print Assumptions C15_cause_order_dependent_on_ties_refuted.
+
+(* ======== Pool.map chunking (C15/Chunk.v): the order contract used above is now derived from a model of
+   chunking, worker assignment and per-chunk nets ======== *)
+
+(* With the worker as it is (every task on its own copy of the element table) Pool.map returns, for every chunk size
+   k >= 1, every assignment of chunks to workers, every start order that covers all chunks, and whether or not a
+   worker keeps its net between chunks, exactly: each task evaluated on a fresh copy of the initial net with its own
+   outage only, in task order. *)
+Theorem C15_chunked_eq_plain : forall ev persist st0 k assign order tasks,
+  (1 <= k)%nat -> (forall i, (i < length (chunks k tasks))%nat -> In i order) ->
+  pool_map_chunked (work_copy ev) persist st0 k assign order tasks = map (plain_pack ev st0) tasks.
+Proof. exact chunked_eq_plain. Qed.
+Print Assumptions C15_chunked_eq_plain.
+
+Theorem C15_chunked_schedule_independent : forall ev st0 tasks persist k assign order persist' k' assign' order',
+  (1 <= k)%nat -> (forall i, (i < length (chunks k tasks))%nat -> In i order) ->
+  (1 <= k')%nat -> (forall i, (i < length (chunks k' tasks))%nat -> In i order') ->
+  pool_map_chunked (work_copy ev) persist st0 k assign order tasks =
+  pool_map_chunked (work_copy ev) persist' st0 k' assign' order' tasks.
+Proof. exact chunked_schedule_independent. Qed.
+Print Assumptions C15_chunked_schedule_independent.
+
+(* chunking itself: the chunks concatenate to the task list; the default chunk size of Pool.map is >= 1 *)
+Theorem C15_chunks_concat : forall k (l : list task), (1 <= k)%nat -> concat (chunks k l) = l.
+Proof. exact (@chunks_concat task). Qed.
+Print Assumptions C15_chunks_concat.
+Theorem C15_pool_chunksize_pos : forall ntasks procs,
+  (1 <= ntasks)%nat -> (1 <= procs)%nat -> (1 <= pool_chunksize ntasks procs)%nat.
+Proof. exact pool_chunksize_pos. Qed.
+Print Assumptions C15_pool_chunksize_pos.
+
+(* the packs of the parallel path are those of the sequential loop on the net itself (outage, evaluation, finally
+   back in service), given that tasks are only built for in-service elements (:104-107) ... *)
+Theorem C15_chunked_par_eq_seq : forall ev persist st0 k assign order tasks,
+  (1 <= k)%nat -> (forall i, (i < length (chunks k tasks))%nat -> In i order) ->
+  tasks_in_service st0 tasks = true ->
+  pool_map_chunked (work_copy ev) persist st0 k assign order tasks = snd (seq_packs ev st0 tasks).
+Proof. exact chunked_par_eq_seq. Qed.
+Print Assumptions C15_chunked_par_eq_seq.
+(* ... and so is every aggregated field, for the default chunk size of any number of processes *)
+Theorem C15_chunked_aggregate_eq_seq : forall n lims ev persist st0 procs assign order tasks,
+  (1 <= procs)%nat -> tasks <> [] ->
+  (forall i, (i < length (chunks (pool_chunksize (length tasks) procs) tasks))%nat -> In i order) ->
+  tasks_in_service st0 tasks = true ->
+  run_par n (map (to_pack lims) (pool_map_chunked (work_copy ev) persist st0 (pool_chunksize (length tasks) procs) assign order tasks)) =
+  run_par n (map (to_pack lims) (snd (seq_packs ev st0 tasks))).
+Proof. exact chunked_aggregate_eq_seq. Qed.
+Print Assumptions C15_chunked_aggregate_eq_seq.
+Example C15_chunked_eq_plain_nonvacuous :
+  pool_map_chunked (work_copy m2_ev) false m2_st0 2 (fun i => i) [1%nat; 0%nat] m2_tasks =
+  pool_map_chunked (work_copy m2_ev) true m2_st0 1 (fun _ => 0%nat) [2%nat; 0%nat; 1%nat; 0%nat] m2_tasks /\
+  map (fun p : wpack => match snd p with Some _ => true | None => false end)
+      (pool_map_chunked (work_copy m2_ev) false m2_st0 2 (fun i => i) [1%nat; 0%nat] m2_tasks) = [false; true; true] /\
+  chunks 2 m2_tasks = [[((0%nat, 10%Z), 0%nat); ((0%nat, 11%Z), 1%nat)]; [((0%nat, 12%Z), 2%nat)]] /\
+  pool_chunksize 10 2 = 2%nat /\ pool_chunksize 10 3 = 1%nat /\ pool_chunksize 3 2 = 1%nat.
+Proof. exact chunked_eq_plain_nonvacuous. Qed.
+
+(* State shared within a chunk (the seeded scenario C15-m2: no per-task deepcopy, the outage toggled on the chunk's
+   table and switched back on only on the success path): the statement is REFUTED — the result depends on the chunk
+   size and differs from the sequential one as soon as a raising outage is not the last task of its chunk ... *)
+Theorem C15_shared_chunksize_dependent_refuted :
+  exists ev st0 tasks k k' assign order,
+    (1 <= k)%nat /\ (1 <= k')%nat /\
+    (forall i, (i < length (chunks k tasks))%nat -> In i order) /\
+    (forall i, (i < length (chunks k' tasks))%nat -> In i order) /\
+    tasks_in_service st0 tasks = true /\
+    pool_map_chunked (work_shared ev) false st0 k assign order tasks <>
+    pool_map_chunked (work_shared ev) false st0 k' assign order tasks.
+Proof. exact shared_chunksize_dependent. Qed.
+Print Assumptions C15_shared_chunksize_dependent_refuted.
+Theorem C15_shared_not_seq_refuted :
+  exists ev st0 tasks k assign order,
+    (1 <= k)%nat /\ (forall i, (i < length (chunks k tasks))%nat -> In i order) /\
+    tasks_in_service st0 tasks = true /\
+    pool_map_chunked (work_shared ev) false st0 k assign order tasks <> snd (seq_packs ev st0 tasks).
+Proof. exact shared_not_plain. Qed.
+Print Assumptions C15_shared_not_seq_refuted.
+(* ... and holds under the boolean guard "no evaluation raises" *)
+Theorem C15_shared_partial : forall ev persist st0 k assign order tasks,
+  (1 <= k)%nat -> (forall i, (i < length (chunks k tasks))%nat -> In i order) ->
+  tasks_in_service st0 tasks = true -> all_succeed ev st0 tasks = true ->
+  pool_map_chunked (work_shared ev) persist st0 k assign order tasks = map (plain_pack ev st0) tasks.
+Proof. exact shared_partial. Qed.
+Print Assumptions C15_shared_partial.
+Example C15_shared_partial_nonvacuous :
+  tasks_in_service m2_st0 (tl m2_tasks) = true /\ all_succeed m2_ev m2_st0 (tl m2_tasks) = true /\
+  all_succeed m2_ev m2_st0 m2_tasks = false.
+Proof. exact shared_partial_nonvacuous. Qed.
